@@ -34,8 +34,13 @@ func escapeTemplate(tmpl *Template, node parse.Node, name string) error {
 		// Prevent execution of unsafe templates.
 		if t := tmpl.set[name]; t != nil {
 			t.escapeErr = err
-			t.text.Tree = nil
-			t.Tree = nil
+			if c.err != nil {
+				t.text.Tree = nil
+				t.Tree = nil
+			}
+			// A template that merely ends in a non-text context keeps its tree: it may
+			// already be part of successfully escaped templates that call it, and
+			// escapeErr alone keeps it from being executed on its own.
 		}
 		return err
 	}
